@@ -147,7 +147,8 @@ std::istream& deserialize(std::istream& is, std::map< KeyT, ValueT >& rhs)
     size_t size;
     is >> size;
     rhs.clear();
-    for (size_t i=0; i<size; i++)
+    // stop at the first failed extraction: the declared size is untrusted input
+    for (size_t i=0; i<size && is; i++)
     {
         KeyT key;
         ValueT value;
@@ -174,7 +175,8 @@ std::istream& deserialize(std::istream& _istr, std::vector< ValueT >& _rhs)
     size_t size;
     _istr >> size;
     _rhs.resize(size);
-    for (size_t i=0; i<size; i++)
+    // stop at the first failed extraction: the declared size is untrusted input
+    for (size_t i=0; i<size && _istr; i++)
         deserialize(_istr,_rhs[i]);
 
     return _istr;
